@@ -79,6 +79,18 @@ def gen_cases(run):
         if rems and adds > rems: dist["index_reuse_histories"] += 1
         if adds > (cap if cap < 9000 else 0): dist["growth_histories"] += 1
         for o in ops: dist["ops"][OPN[o[0]]] += 1
+    # MEDIUM graphs: past 64 nodes (a machine word of nodes, several doublings of the adjacency matrix), edges and removals at high
+    # indices; the observation window stays small, the sorted node / edge lists and the counts cover the rest. The association-list
+    # model is cubic in the size, so only one or two such histories are run.
+    for nn, ne in ([(130, 260), (70, 150)] if run.thorough else [(70, 150)]):
+        ops = [(rng.choice([0, 0, 0, 1]), 1000 + i, 0, 0) for i in range(nn)]
+        for _ in range(ne):
+            a, b2 = rng.randrange(nn), rng.randrange(nn)
+            ops.append((rng.choice([3, 4, 4]), a, b2, rng.randrange(1, 9)))
+        for _ in range(12): ops.append((2, rng.randrange(nn), 0, 0))
+        for _ in range(12): ops.append((rng.choice([0, 5, 4]), rng.randrange(nn), rng.randrange(nn), 3))
+        cases.append(Case("ugraph", [4], ops, {"cap": rng.choice([0, 8, 9001]), "medium": True}))
+        dist["medium_graph_histories"] = dist.get("medium_graph_histories", 0) + 1
     dist["histories"] = len(cases)
     return cases, dist
 
